@@ -77,7 +77,7 @@ class Check(CheckBase):
             "the three 256x256 faces through 5 boundary values of the third byte, thorough: the full 256^3 product -- mono, "
             "and the faces again as L/R stereo pairs; L/R pairs of unequal length for every pair of lengths in {1,2,2047,2048,2049,4095,4096,"
             "4097,6145,6146} words (AKAI; Roland: 36 pairs); loop table: loop type {0..4} x (loop_at, length, duration) corner values "
-            "for 1, 2 and 8 active slots x rate {0,1,44100,65535}. Builds that raise are 'export did not succeed' (counted, "
+            "for 1, 2 and 8 active slots x rate {0,1,44100,65535}; every value 0..65535 of the sample-rate field, mono and as an L/R pair. Builds that raise are 'export did not succeed' (counted, "
             "not violations). non-trivial = non-default key, looped, or stereo")
     assumptions = ["cases whose build raises are outside the statement; their number is reported, and a header value that "
                    "makes every build fail trips the vacuity alarm"]
@@ -128,6 +128,10 @@ class Check(CheckBase):
         for lt in range(5):
             for slots in (1, 2, 8):
                 out.append({"origin": "loops", "loop_type": lt, "slots": slots})
+        # every value of the 16-bit sample-rate field, mono and as an L/R pair (in blocks of 4096 rates)
+        for stereo in (False, True):
+            for lo in range(0, 65536, 4096):
+                out.append({"origin": "rates", "lo": lo, "stereo": stereo})
         return out
 
     def run_shard(self, shard, rep: Report):
@@ -167,6 +171,9 @@ class Check(CheckBase):
             for semi in range(256):
                 for cents in range(256):
                     header_case(rep, {"note": shard["note"], "semi": semi, "cents": cents})
+        elif o == "rates":
+            for rate in range(shard["lo"], shard["lo"] + 4096):
+                header_case(rep, {"note": 60, "semi": 0, "cents": 0, "rate": rate, "stereo": shard["stereo"]})
         elif o == "loops":
             slots = shard["slots"]
             combos = list(itertools.product(LOOP_AT, LOOP_LEN, LOOP_DUR))
